@@ -311,6 +311,55 @@ theorem c06_constants_table :
   have h3 : majorityThreshold ≤ 1 / 2 := by decide +kernel
   cases s <;> simp only [Attainable, effThreshold] <;> first | exact h1 | exact h2 | exact h3
 
+/-! ### The un-stubbed colony: real `BioAgent` voters (core/agent.py) -/
+
+/-- Un-stubbed colony (real `BioAgent` voters of core/agent.py): a proposal that carries a dangerous marker or that
+    the agents' membrane rejects is never PERMIT — for every strategy, non-negative threshold, `min_voters`, colony
+    size and ATP budget (agents that run out of ATP answer FAILURE, which is an abstention, never support). -/
+theorem c06_real_voters_never_permit_dangerous (cfg : Cfg) (ht : NonNegThreshold cfg) (p : PromptClass)
+    (hp : p ≠ .safe) (budget n : Nat) :
+    (runVote cfg (bioVoters p budget n)).reached = false ∧ (runVote cfg (bioVoters p budget n)).decision ≠ .permit :=
+  c06_no_permit_without_permit_vote cfg _ ht (bioVoters_no_permit p hp budget n)
+
+/-- … and a safe proposal put to a funded, non-empty colony of at least `min_voters` real voters is PERMIT under
+    every strategy with its default threshold. -/
+theorem c06_real_voters_permit_safe (s : Strategy) (minVoters budget n : Nat) (hn : 1 ≤ n) (hm : minVoters ≤ n)
+    (hb : 10 * n ≤ budget) :
+    (runVote ⟨s, none, minVoters⟩ (bioVoters .safe budget n)).decision = .permit := by
+  have hall := bioVoters_safe_funded budget n hb
+  have hlen := bioVoters_length .safe budget n
+  have hne : bioVoters .safe budget n ≠ [] := by
+    intro h; rw [h] at hlen; simp at hlen; omega
+  have hcm : confidenceMin ≤ 1 := c06_constants_table.2.2.2.2.2.2.2.2.2.2.2.2.2.2.1
+  refine (c06_unanimous_permit_is_permit _ _ hne ?_ (by rw [hlen]; exact hm) ?_ ?_ ?_).2
+  · intro v hv; rw [hall v hv]; decide
+  · intro v hv; rw [hall v hv]
+    exact ⟨by show (0 : Rat) ≤ 1; decide +kernel, by show (0 : Rat) ≤ 1; decide +kernel, by intro c h; cases h⟩
+  · have := c06_constants_table.2.2.2.2.2.2.2.2.2.2.2.2.2.2.2.2.2 s (bioVoters .safe budget n).length
+    unfold Attainable at this ⊢
+    exact this
+  · obtain ⟨v, hv⟩ := List.exists_mem_of_ne_nil _ hne
+    have hv' := hall v hv
+    have hmem : toVote (bioVoter .permit) ∈ collect (bioVoters .safe budget n) := by
+      unfold collect; exact List.mem_map.mpr ⟨v, hv, by rw [hv']⟩
+    have hk : (toVote (bioVoter .permit)).kind = .permit := by decide
+    have he : 0 < (toVote (bioVoter .permit)).eff := by decide +kernel
+    have hc : (toVote (bioVoter .permit)).conf ≥ confidenceMin := by
+      show confidenceMin ≤ 1; exact hcm
+    unfold Supported
+    cases s <;> simp only []
+    · exact ⟨_, hmem, hk, he⟩
+    · exact ⟨_, hmem, hk, hc, he⟩
+    · exact ⟨_, hmem, hk, he⟩
+
+/-- both theorems apply to concrete colonies: three funded voters permit a safe proposal; with 25 ATP the third
+    voter fails (abstains) and the two permits still carry the majority; a dangerous proposal is blocked -/
+example : (runVote ⟨.supermajority, none, 2⟩ (bioVoters .safe 30 3)).decision = .permit ∧
+    (runVote ⟨.majority, none, 1⟩ (bioVoters .safe 25 3)).abstain = 1 ∧
+    (runVote ⟨.majority, none, 1⟩ (bioVoters .safe 25 3)).decision = .permit ∧
+    (runVote ⟨.bayesian, some (1 / 4), 1⟩ (bioVoters .dangerous 30 3)).decision = .block ∧
+    (runVote ⟨.threshold, some (3 / 10), 1⟩ (bioVoters .rejected 0 3)).decision = .block := by decide +kernel
+
 /-! ### Non-vacuity: concrete electorates meeting the hypotheses, and witnesses that no hypothesis can be dropped -/
 
 /-- the two repaired defects, on the model: three blocks under BAYESIAN and two blocks under the default
